@@ -188,3 +188,45 @@ Proof.
   apply Nat.eqb_eq in L. destruct (unhex_some_chars _ _ E) as [F Ls]. split; [|exact F].
   rewrite Ls, L. reflexivity.
 Qed.
+
+(* what unhex_id returns is a 256-bit number *)
+Lemma unhex_digit_lt c n : unhex_digit c = Some n -> n < 16.
+Proof.
+  unfold unhex_digit.
+  destruct ((48 <=? c) && (c <=? 57)) eqn:A;
+    [intros E; inversion E; apply andb_true_iff in A; rewrite !N.leb_le in A; lia|].
+  destruct ((97 <=? c) && (c <=? 102)) eqn:B;
+    [intros E; inversion E; apply andb_true_iff in B; rewrite !N.leb_le in B; lia|].
+  destruct ((65 <=? c) && (c <=? 70)) eqn:C;
+    [intros E; inversion E; apply andb_true_iff in C; rewrite !N.leb_le in C; lia|].
+  discriminate.
+Qed.
+
+Lemma unhex_wf s : forall b, unhex s = Some b -> wf_bytes b.
+Proof.
+  induction s as [|a|a c r IH] using list_pair_ind; intros b E; cbn [unhex] in E.
+  - inversion E. constructor.
+  - discriminate.
+  - destruct (unhex_digit a) eqn:Ea; [|discriminate]. destruct (unhex_digit c) eqn:Ec; [|discriminate].
+    destruct (unhex r) eqn:Er; [|discriminate]. inversion E; subst.
+    apply unhex_digit_lt in Ea. apply unhex_digit_lt in Ec.
+    constructor; [unfold wf_byte; lia|now apply IH].
+Qed.
+
+Lemma of_be_lt l : wf_bytes l -> of_be l < 256 ^ N.of_nat (length l).
+Proof.
+  induction l as [|x l IH] using rev_ind; intros W.
+  - cbn. lia.
+  - apply Forall_app in W. destruct W as [Wl Wx]. inversion Wx; subst.
+    rewrite of_be_app, app_length. cbn [length].
+    replace (N.of_nat (length l + 1)) with (N.succ (N.of_nat (length l))) by lia.
+    rewrite N.pow_succ_r'. specialize (IH Wl). unfold wf_byte in *. lia.
+Qed.
+
+Lemma unhex_id_wf s i : unhex_id s = Some i -> wf_id i.
+Proof.
+  unfold unhex_id. destruct (unhex s) as [b|] eqn:E; [|discriminate].
+  destruct (Nat.eqb (length b) id_len) eqn:L; [|discriminate]. intros X. inversion X; subst i.
+  apply Nat.eqb_eq in L. pose proof (of_be_lt b (unhex_wf _ _ E)) as B. rewrite L in B.
+  unfold wf_id, id_of_bytes. replace (2 ^ 256) with (256 ^ N.of_nat id_len) by (vm_compute; reflexivity). exact B.
+Qed.
